@@ -24,7 +24,8 @@ def run(prop, tier):
     jobs.append(dict(src=SRC, ksim=True, args=["peergone", "-p", p + 1, "-d", d]))
     jobs.append(dict(src=SRC, ksim=True, args=["peergone", "-p", p, "-d", d, "--", "handler"]))       # the application had installed a SIGPIPE handler before p_libsys_init
     jobs.append(dict(src=SRC, ksim=True, args=["halfclose", "-p", p, "-d", d]))
-    jobs.append(dict(src=SRC, ksim=True, args=["accept2", "-p", p, "-d", d]))      # two threads in accept on one listener, one connection
+    jobs.append(dict(src=SRC, ksim=True, args=["accept2", "-p", p, "-d", d]))
+    jobs.append(dict(src=SRC, ksim=True, args=["stalled", "-p", p, "-d", d]))      # blocking sender with a time-out, 20 bytes into 8-byte buffers, peer that does not read      # two threads in accept on one listener, one connection
     for v in ("b50", "n"):       # connect whose handshake stays pending, under every pattern of interruptions of connect / poll
         jobs.append(dict(src=SRC, ksim=True, args=["pending", "-p", 0, "-d", d + 1, "--", v]))
     acc = mcsched.run_jobs(prop, tier, jobs, extra_props=("SCHED", "RACE", "UAF", "POSIX", "MEM", "KSIM"))
